@@ -184,6 +184,18 @@ add('C12', 'model_checking',
     'one known finding (bare 65-byte pubkey truncated to 64 bytes) is listed in known_findings.json.',
     'explicit-state breadth-first search over configuration histories plus exhaustive single-fault enumeration against reference codecs')
 
+add('C16', 'fault_enumeration',
+    'Rule-violation catalogue around generated valid objects, on both sides of every boundary, singly and in all pairs: transactions '
+    '(15 bases incl. coinbases; empty vin/vout, values -1/0/MAX/MAX+1/2^63-1, running totals MAX/MAX+1 at each position, duplicate '
+    'outpoint at every pair, null prevout at each position, coinbase script 0/1/2/100/101 bytes, stripped size 999,999..1,000,001 '
+    'with and without witness) on 4 chains; blocks (4 bases with/without witness, regtest-difficulty nonce ground by the harness so '
+    'proof of work is live): every transaction entry applied to every transaction incl. the coinbase, second/missing/misplaced '
+    'coinbase, duplicate transaction (and same txid with other witness), sig-ops 19,999/20,000/20,001 in three distributions incl. '
+    'malformed trailing pushes, wrong/zero merkle root, 14 witness-commitment modes, timestamp +7200/+7201, bad hash, bits above '
+    'limit/zero/negative, other chains; all pairs on the 3-transaction witness block; block size and weight at +-1 of the limits.',
+    'DESIGN.md 3 C16', 'Oracle ref/rules.py (agrees with the repository\'s checkblock_valid/invalid vectors). Commitment outputs > 39 bytes are don\'t-care.',
+    'exhaustive single and pairwise rule-violation (fault) enumeration against a reference rule list')
+
 NOT_YET = 'check not yet built in this revision of /verif (planned, see DESIGN.md section 3)'
 
 
